@@ -216,4 +216,75 @@ pub assume_specification<P: core::str::pattern::Pattern>[ str::starts_with::<P> 
         pat_str_of(p) is Some ==> r == starts_with(s@, pat_str_of(p)->0),
         pat_char_of(p) is Some ==> r == (s@.len() > 0 && s@[0] == pat_char_of(p)->0);
 
+// ---- byte lengths ----
+pub uninterp spec fn byte_len(s: Seq<char>) -> nat;
+pub broadcast axiom fn axiom_str_byte_len(s: &str)
+    ensures #[trigger] vstd::string::StringSliceAdditionalSpecFns::spec_bytes(s).len() == byte_len(s@);
+pub assume_specification[ String::len ](s: &String) -> (r: usize)
+    ensures r as nat == byte_len(s@);
+
+// ---- trim_matches(char) ----
+pub open spec fn trim_start_char(s: Seq<char>, c: char) -> Seq<char>
+    decreases s.len()
+{ if s.len() > 0 && s[0] == c { trim_start_char(s.drop_first(), c) } else { s } }
+pub open spec fn trim_end_char(s: Seq<char>, c: char) -> Seq<char>
+    decreases s.len()
+{ if s.len() > 0 && s.last() == c { trim_end_char(s.drop_last(), c) } else { s } }
+pub open spec fn trim_char(s: Seq<char>, c: char) -> Seq<char> { trim_end_char(trim_start_char(s, c), c) }
+pub assume_specification<'a, P: core::str::pattern::Pattern>[ str::trim_matches::<P> ](s: &'a str, p: P) -> (r: &'a str)
+    where for<'b> <P as core::str::pattern::Pattern>::Searcher<'b>: core::str::pattern::DoubleEndedSearcher<'b>,
+    ensures pat_char_of(p) is Some ==> r@ == trim_char(s@, pat_char_of(p)->0);
+
+// ---- split(&str) / split_whitespace ----
+pub open spec fn views<'a>(s: Seq<&'a str>) -> Seq<Seq<char>> { Seq::new(s.len(), |k: int| s[k]@) }
+pub uninterp spec fn split_str(s: Seq<char>, p: Seq<char>) -> Seq<Seq<char>>;   // str::split: always at least one piece
+pub broadcast axiom fn axiom_split_nonempty(s: Seq<char>, p: Seq<char>)
+    ensures (#[trigger] split_str(s, p)).len() >= 1;
+pub uninterp spec fn ws_words(s: Seq<char>) -> Seq<Seq<char>>;                  // str::split_whitespace: the non-empty words
+
+#[verifier::external_type_specification]
+#[verifier::external_body]
+pub struct ExSplitWhitespace<'a>(core::str::SplitWhitespace<'a>);
+
+// shim for `s.split(<&str>)`: core::str::Split<'a, P> cannot be given an external_type_specification in this Verus (its Clone impl
+// is bounded by the GAT `P::Searcher<'a>: Clone`, which crashes the AIR type checker), so the pieces are collected eagerly;
+// iterating the collected pieces is iterating the Split
+#[verifier::external_body]
+pub fn vx_split<'a>(s: &'a str, p: &str) -> (it: std::vec::IntoIter<&'a str>)
+    ensures views(it.remaining()) == split_str(s@, p@), it.obeys_prophetic_iter_laws(), it.decrease() is Some
+{ s.split(p).collect::<Vec<&'a str>>().into_iter() }
+pub assume_specification<'a>[ str::split_whitespace ](s: &'a str) -> (it: core::str::SplitWhitespace<'a>)
+    ensures views(it.remaining()) == ws_words(s@), it.obeys_prophetic_iter_laws(), it.decrease() is Some;
+
+// shims for the provided methods Iterator::last / Iterator::map
+#[verifier::external_body]
+pub fn vx_iter_last<I: Iterator>(it: I) -> (r: Option<I::Item>)
+    ensures it.obeys_prophetic_iter_laws() ==> ((r is Some) == (it.remaining().len() > 0)) && (r is Some ==> r->0 == it.remaining().last())
+{ it.last() }
+#[verifier::external_body]
+pub fn vx_iter_map<I: Iterator, B, F: FnMut(I::Item) -> B>(it: I, f: F) -> (r: core::iter::Map<I, F>)
+    requires forall|x: I::Item| call_requires(f, (x,))
+    ensures
+        r.remaining().len() == it.remaining().len(),
+        forall|k: int| 0 <= k < it.remaining().len() ==> call_ensures(f, (#[trigger] it.remaining()[k],), r.remaining()[k]),
+        it.obeys_prophetic_iter_laws() ==> r.obeys_prophetic_iter_laws(),
+        it.decrease() is Some ==> r.decrease() is Some,
+{ it.map(f) }
+
+// ---- ordering of strings (`a < b` on &str): lexicographic by bytes; only its being a strict total order is used ----
+pub uninterp spec fn str_cmp(a: Seq<char>, b: Seq<char>) -> core::cmp::Ordering;
+pub open spec fn str_lt(a: Seq<char>, b: Seq<char>) -> bool { str_cmp(a, b) is Less }
+pub broadcast axiom fn axiom_str_partial_ord_obeys<'a, 'b>()
+    ensures #[trigger] <&'a str as vstd::std_specs::cmp::PartialOrdSpec<&'b str>>::obeys_partial_cmp_spec();
+pub broadcast axiom fn axiom_str_partial_ord<'a, 'b>(x: &'a str, y: &'b str)
+    ensures #[trigger] <&'a str as vstd::std_specs::cmp::PartialOrdSpec<&'b str>>::partial_cmp_spec(&x, &y) == Some(str_cmp(x@, y@));
+pub broadcast group group_str_ord { axiom_str_partial_ord_obeys, axiom_str_partial_ord }
+pub broadcast axiom fn axiom_str_cmp_total(a: Seq<char>, b: Seq<char>)
+    ensures
+        (#[trigger] str_cmp(a, b) is Equal) <==> a == b,
+        str_cmp(a, b) is Less <==> str_cmp(b, a) is Greater;
+pub broadcast axiom fn axiom_str_cmp_trans(a: Seq<char>, b: Seq<char>, c: Seq<char>)
+    requires #[trigger] str_cmp(a, b) is Less, #[trigger] str_cmp(b, c) is Less
+    ensures str_cmp(a, c) is Less;
+
 } // verus!
